@@ -62,7 +62,35 @@ def strategy(tier):
     return _case(tier)
 
 
+def _local_extra():
+    from vlib import poolprops, realpool
+
+    return [
+        {"name": "local_virtual", "strategy": lambda tier: poolprops.history(max_steps=25 if tier == "quick" else 40, burst=False),
+         "examples": {"quick": 1600, "thorough": 40000}, "wall_s": 120},
+        {"name": "local_real", "strategy": lambda tier: realpool.real_case(6 if tier == "quick" else 8),
+         "examples": {"quick": 3, "thorough": 48}, "wall_s": 240},
+    ]
+
+
+EXTRA_STRATEGIES = _local_extra()
+CASE_TIMEOUT_S = 200
+
+
+def run_local(case):
+    """Local worker pool: task ids passed as deps; a task never starts before (or after a failure of) its prerequisites."""
+    from vlib import poolprops
+
+    viols11, labels, info = poolprops.run(case, "C11")
+    viols = [Violation(dict(v.sig, prop="C07", backend="local"), v.msg) for v in viols11
+             if v.sig.get("kind", "").startswith("started-")]
+    labels = set(labels) | {"backend-local"}
+    return CaseResult(viols, bool(info.get("dep_not_ok_with_multi") or info.get("skipped_dependents")), sorted(labels))
+
+
 def run_case(case):
+    if "cores" in case:
+        return run_local(case)
     desc, flavour = case["desc"], case["backend"]
     viols, labels = [], {"backend-" + flavour}
     expected = {}  # job id -> set of prerequisite job ids (model)
